@@ -39,7 +39,7 @@ ASSUMPTIONS = [
 ]
 REQUIRED = {"mode:include": 40, "mode:exclude": 40, "kind:pair": 20, "kind:eam": 15, "kind:fs": 15, "kind:adp": 5,
             "removes_and_keeps": 50, "views>=2": 40, "views_tabulated": 25, "unknown_label": 15, "empty_include": 5,
-            "only_unknown_labels:include:make_config_parser": 2, "only_unknown_labels:exclude:make_config_parser": 2}
+            "route:main": 25, "only_unknown_labels:include:make_config_parser": 2, "only_unknown_labels:exclude:make_config_parser": 2}
 
 
 @st.composite
@@ -74,7 +74,7 @@ def _case(draw, targets=None, shape=None, mode=None):
     others = draw(st.lists(_filter(sp), min_size=0, max_size=3))
     order = draw(st.permutations(list(range(len(others) + 1))))
     return {"model": m, "filter": flt, "others": others, "order": list(order),
-            "route": draw(st.sampled_from(["FilteredConfigParser", "FilteredConfigParser", "make_config_parser"]))}
+            "route": draw(st.sampled_from(["FilteredConfigParser", "FilteredConfigParser", "make_config_parser", "main"]))}
 
 
 def strategy(tier):
@@ -172,9 +172,11 @@ def check_case(case):
         # the hand-edited file itself trips an internal error: outside this property (C16's concern)
         return {"v": [], "cls": cls, "nt": False, "skip": True}
     try:
-        if case["route"] == "cli":
+        if case["route"] == "main" and not flt["species"]:
+            case = dict(case, route="FilteredConfigParser")     # an empty list cannot be typed on the command line
+        if case["route"] in ("cli", "main"):
             args = ["--include-species" if flt["mode"] == "include" else "--exclude-species"] + list(flt["species"])
-            got = anymodel.cli_outcome(text, target, args)
+            got = anymodel.cli_outcome(text, target, args, inproc=case["route"] == "main")
             if not anymodel.same_outcome(got, want):
                 v.append(("cli:output_differs", "CLI %r: %r\nhand-edited file: %r\n%s" % (args, got[:1] + (got[1][:300],), want[:1] + (want[1][:300],), ctx)))
             return {"v": v, "cls": cls, "nt": bool(removed and kept)}
